@@ -270,6 +270,18 @@ def simulate_header_machine(prog, seq, rx_ok: bool, sizes=None, class_state=None
     context.__dict__["state"] = "running"
     if "Highlight" in prog.classes:
         ev.classes["Highlight"] = prog.classes["Highlight"].node
+    # the header state starts as Context.__init__ sets it (two flags today; an enum-valued attribute after a tidy-up)
+    init = prog.method("Context", "__init__")
+    if init is not None:
+        wanted = header_state_attrs(prog) - {"header"}
+        for st_ in walk_fn(init.node):
+            if isinstance(st_, ast.Assign) and len(st_.targets) == 1 and isinstance(st_.targets[0], ast.Attribute) \
+                    and text(st_.targets[0].value) == "self" and st_.targets[0].attr in wanted:
+                ev._mods.append(init.mod)
+                try:
+                    context.__dict__[st_.targets[0].attr] = ev.expr(st_.value, {})
+                finally:
+                    ev._mods.pop()
     me = Obj("CheckHeader", context=context, name="CheckHeader")
     from ..fold import class_constants
     for k_, v_ in class_constants(ch).items():           # class-level constants read through self
@@ -395,18 +407,37 @@ def rule_machine(run, prog):
            ph.node if ph else ch.node)
 
 
+def header_state_attrs(prog):
+    out = set()
+    for fn in prog.fns:
+        if fn.mod.rel != "rules/check_header.py":
+            continue
+        for x in walk_fn(fn.node):
+            tg = x.targets if isinstance(x, ast.Assign) else [x.target] if isinstance(x, (ast.AugAssign, ast.AnnAssign)) else []
+            for t in tg:
+                if isinstance(t, ast.Attribute) and text(t.value) == "context":
+                    out.add(t.attr)
+    return out
+
+
 def rule_isolation(run, prog):
     run.rule("R-13.4", "OWN: context.header / header_started / header_parsed are touched only in check_header.py and "
              "Context.__init__; INVALID_HEADER is emitted only by CheckHeader", floor=2)
     outside = []
     n = 0
+    # the header state = the attributes of the context that check_header.py stores (two flags and the text today; a single
+    # enum-valued attribute after a tidy-up is the same state under another name)
+    state = header_state_attrs(prog)
+    run.require("header" in state and len(state) >= 2, f"anchor vanished: header state attributes (check_header.py stores {sorted(state)})")
     for fn in prog.fns:
         for x in walk_fn(fn.node):
-            if isinstance(x, ast.Attribute) and x.attr in ("header", "header_started", "header_parsed"):
+            if isinstance(x, ast.Attribute) and x.attr in state and text(x.value) in ("context", "self", "self.context", "ctx"):
+                if text(x.value) == "self" and not (fn.cls is not None and fn.cls.name == "Context"):
+                    continue
                 n += 1
                 if fn.mod.rel != "rules/check_header.py" and fn.key != "context.py::Context.__init__":
                     outside.append((fn, x))
-    run.require(n >= 8, "anchor vanished: header state attributes")
+    run.require(n >= 6, "anchor vanished: header state attributes")
     run.ob("R-13.4", "context.py::Context::header-state-private", not outside,
            "header state is used outside CheckHeader: " + ", ".join(f"{f.key}:{x.lineno}" for f, x in outside[:4]),
            outside[0][1] if outside else None)
